@@ -841,6 +841,11 @@ func (c *Conn) flush() error {
 	}
 
 	if len(c.writeList) == 0 {
+		// A writable event with nothing queued: a connection dialed
+		// without EINPROGRESS is registered for writing as well. Go back
+		// to reading only, else LT reports it for ever and EPOLLONESHOT
+		// never reports anything again.
+		c.resetRead()
 		return nil
 	}
 
